@@ -367,7 +367,8 @@ def sd1(ctx, R):
     def is_rec(a, src):
         """the recursive evaluation of the scaling's input source `src` (with or without the raw data passed along)"""
         b = match(("call", cs.qual, W("args"), W()), a)
-        return b is not None and b["args"] and b["args"][0] == ("attr", S, src) and b["args"][1:] in ((), (raw,))
+        # ... and possibly bookkeeping handed down the recursion (a per-call memo, a visited set)
+        return b is not None and b["args"] and b["args"][0] == ("attr", S, src) and (len(b["args"]) < 2 or b["args"][1] == raw)
     seen = {"base": False, "daqmx": False, "unary": False, "binary": False}
     for conds, leaf in lv:
         fc = flat_conds(conds)
